@@ -236,7 +236,7 @@ func (s *Symbols) helperResult(call *ssa.Call, env Env, depth int, idx int) (ssa
 	var r ssau.AbsResult
 	ssau.WithParamSubst(call, func() {
 		r = ssau.AbsWalk(h, ssau.AbsEnvFunc(func(i *ssa.If, visit int) (bool, bool) {
-			return s2.evalCond(i.Cond, env2, visit, i.Block().Comment)
+			return s2.evalCond(i.Cond, env2, visit, blockComment(i))
 		}))
 	})
 	if r.Unknown != nil || r.Ret == nil || idx >= len(r.Ret.Results) {
@@ -367,7 +367,7 @@ func (c *Ctx) Decision(rule, key string, fn *ssa.Function, syms *Symbols, envs [
 	for _, env := range envs {
 		env := env
 		res := ssau.AbsWalk(fn, ssau.AbsEnvFunc(func(i *ssa.If, visit int) (bool, bool) {
-			return syms.evalCond(i.Cond, env, visit, i.Block().Comment)
+			return syms.evalCond(i.Cond, env, visit, blockComment(i))
 		}))
 		if res.Unknown != nil {
 			c.R.Undecided(rule, key, c.posOf(res.Unknown), fmt.Sprintf("%s: branch condition %s at %s is not in the rule's atom table (valuation %s)", fname(fn), res.Unknown.Cond.String(), c.posOf(res.Unknown), env))
